@@ -7,21 +7,21 @@ Definition ctbl := option Z.
 Inductive nt_behaviour := NtPanic (e : bytes) | NtErr (e : bytes).
 
 Definition cfg_case :=
-  (kind * bytes * bytes * list (bytes * option ctbl) * bytes * nt_behaviour * Z * sobj * obs)%type.
+  (kind * bytes * bytes * list (bytes * option ctbl) * bytes * nt_behaviour * Z * bool * sobj * obs)%type.
 
 Definition mk_doc (d : list (bytes * option ctbl)) : doc ctbl :=
   map (fun p => (fst p, match snd p with Some t => NTable ctbl t | None => NOther ctbl end)) d.
 
-Definition cfg_lint (name src errmsg : bytes) (base : Z) : clint sobj Z ctbl :=
+Definition cfg_lint (name src errmsg : bytes) (base : Z) (app : bool) : clint sobj Z ctbl :=
   mkClint sobj Z ctbl (mkMeta name [] [] src zeroT zeroT) (Ret 0)
           (Some (fun t i => match t with Some a => inl a | None => inr errmsg end))
-          (fun _ _ => Ret true)
+          (fun _ _ => Ret app)
           (fun i _ => if i =? 0 then Ret (Some (mkResult base []))
                       else Ret (Some (mkResult Notice (s2b "A=" ++ [Z.to_N (48 + i)])%list))).
 
 Definition check_cfg (c : cfg_case) : bool :=
   match c with
-  | (k, name, src, d, errmsg, nt, base, o, ob) =>
+  | (k, name, src, d, errmsg, nt, base, app, o, ob) =>
     let ntv := match nt with NtPanic e => Panic e | NtErr e => Ret (inr e) end in
-    obs_eqb (obs_of (fst (crun sobj Z ctbl o_server_auth o_email o_cs sdate ntv k (cfg_lint name src errmsg base) (mk_doc d) o))) ob
+    obs_eqb (obs_of (fst (crun sobj Z ctbl o_server_auth o_email o_cs sdate ntv k (cfg_lint name src errmsg base app) (mk_doc d) o))) ob
   end.
